@@ -161,7 +161,11 @@ def _machine(ctx):
         ds = [MazeDataset(MazeDatasetConfig(name=f"m{k}", grid_n=2, n_mazes=len(l)), [mz(i) for i in l]) for k, l in enumerate(members)]
         cfgs = [d.cfg for d in ds] if own else [MazeDatasetConfig(name=f"m{k}", grid_n=2, n_mazes=len(l)) for k, l in enumerate(members)]
         cfgs = cfgs + [MazeDatasetConfig(name=f"x{k}", grid_n=2, n_mazes=n) for k, n in enumerate(extra)]
-        c = MazeDatasetCollection(MazeDatasetCollectionConfig(name="c", maze_dataset_configs=cfgs), ds)
+        # the constructor takes any iterable of datasets (it stores list(maze_datasets)): lists, tuples and one-shot iterators alike
+        how = rng.choice(["list", "list", "tuple", "generator", "map", "iter"])
+        arg = {"list": lambda: list(ds), "tuple": lambda: tuple(ds), "generator": lambda: (d for d in ds), "map": lambda: map(lambda d: d, ds), "iter": lambda: iter(ds)}[how]()
+        case["members_passed_as"] = how; ctx.count(f"members_passed_as={how}")
+        c = MazeDatasetCollection(MazeDatasetCollectionConfig(name="c", maze_dataset_configs=cfgs), arg)
         ident = {}
         def idof(m):
             for k, v in pool.items():
@@ -192,7 +196,7 @@ def _machine(ctx):
             elif t == "count" and not dirty and not extra and o != len(flat):
                 bad = f"cfg.n_mazes gives {o} with every member config up to date, the members hold {len(flat)} mazes"
             if bad:
-                ctx.violate(f"statement {k} ({op[0]}) of {ops[:k + 1]} on a collection with members {members}: {bad}", case); return
+                ctx.violate(f"statement {k} ({op[0]}) of {ops[:k + 1]} on a collection with members {members} (passed to the constructor as a {how}): {bad}", case); return
         reqs.append(dict(op="C16.machine", members=members, ops=ops, extra_cfg_n=sum(extra))); reals.append(outs); cases.append(case)
     for case, real, o in zip(cases, reals, ctx.driver.run_parallel(reqs)):
         ctx.traces_validated += 1
